@@ -559,6 +559,15 @@ func (r *sysRun) digest() string {
 		len(t.selected), t.version, t.previewer.version, r.mergers, len(r.searches), alive, len(procs), r.tty.BytesOut, r.tty.Pending(), t.executing.Get())
 }
 
+// spinnerFree drops the output byte count from a digest (the spinner keeps writing while input is open).
+func spinnerFree(d string) string {
+	f := strings.Split(d, "|")
+	if len(f) >= 4 {
+		f[len(f)-3] = "-"
+	}
+	return strings.Join(f, "|")
+}
+
 // settle runs the scheduler until the observable state has been stable for H
 // (three consecutive 1 s windows) with the user actor waiting or finished.
 // fzf's spinner goroutine ticks every 100 ms for the whole session, so "no
@@ -576,7 +585,14 @@ func (r *sysRun) settle(maxWindows int) (settled bool, out zsim.Outcome) {
 		// a goroutine parked at a yield is runnable: pending work (only the 100 ms spinner may be caught here by chance)
 		// The only periodic activity of an idle session is the 100 ms spinner goroutine (a handful of
 		// steps per tick); more steps in the window, or several runnable goroutines, mean pending work.
-		if r.sim.Stats.Steps-stepsBefore > 100 || len(r.sim.Parked()) > 1 {
+		maxSteps := 100
+		if len(r.stageLines) > 0 && r.t != nil && r.t.reading {
+			// staged input: while the producer pauses fzf is still "reading" and the spinner is redrawn every
+			// 100 ms (spinner goroutine -> reqInfo -> renderer -> tty: a few dozen steps per tick)
+			maxSteps = 600
+			d = spinnerFree(d)
+		}
+		if r.sim.Stats.Steps-stepsBefore > maxSteps || len(r.sim.Parked()) > 1 {
 			last = ""
 			d += "|active"
 		}
